@@ -11,10 +11,14 @@ import (
 
 var seenSig = map[string]bool{}
 
-// shrinkAndReport is called with a scenario that violated. If the violation is covered by
-// an open known finding it is counted and nil is returned so that the run goes on;
-// otherwise the scenario is minimised while the violation signature stays the same.
-func (c *Ctx) shrinkAndReport(sc *Scenario, v *Violation) *Replay {
+// dupMarker ends a run without emitting anything: the violation was already reported by
+// this process. (A run ends on every unknown violation, fresh or duplicate, so that what a
+// run does never depends on which other runs the same process executed before it.)
+var dupMarker = &Replay{}
+
+// gate classifies a violation. Known finding: counted, first example kept for the
+// summary, (nil, false) - the run goes on. Duplicate: (dupMarker, false). New: (rp, true).
+func (c *Ctx) gate(sc *Scenario, v *Violation, shrink func(rp *Replay)) (*Replay, bool) {
 	rp := &Replay{Property: c.N.Batch.Property, Scenario: *sc, Violation: *v}
 	rp.Violation.Property = c.N.Batch.Property
 	for i := range c.N.Batch.Known {
@@ -23,19 +27,34 @@ func (c *Ctx) shrinkAndReport(sc *Scenario, v *Violation) *Replay {
 			c.Count("known:"+k.ID, 1)
 			if !seenSig["known:"+k.ID] {
 				seenSig["known:"+k.ID] = true
-				c.shrink(rp)
+				if shrink != nil {
+					shrink(rp)
+				}
 				rp.Known = k.ID
-				return rp
+				rp.Format = "verif-replay/1"
+				rp.Seed = c.N.Batch.Seed
+				rp.Run = c.Run
+				c.N.attachPrograms(rp)
+				c.N.KnownExamples = append(c.N.KnownExamples, rp)
 			}
-			return nil
+			return nil, false
 		}
 	}
 	c.Count("violations_raw", 1)
 	if seenSig[v.Signature] {
-		return nil
+		return dupMarker, false
 	}
 	seenSig[v.Signature] = true
-	c.shrink(rp)
+	return rp, true
+}
+
+// shrinkAndReport is called with a scenario that violated: known findings let the run go
+// on (nil); otherwise the scenario is minimised while the signature stays the same.
+func (c *Ctx) shrinkAndReport(sc *Scenario, v *Violation) *Replay {
+	rp, fresh := c.gate(sc, v, c.shrink)
+	if fresh {
+		c.shrink(rp)
+	}
 	return rp
 }
 
